@@ -166,6 +166,8 @@ class FileReader(FileBase):
 
         filenames = self.sinfo.get_info_list("filename")
         super().__init__(filenames, mode)
+        # Start at the first sample of the stream, not at the header of the first file.
+        self._seek2hdr(0)
 
     @property
     def cur_data_pos_file(self) -> int | None:
